@@ -386,7 +386,14 @@ func (e *InterpreterEnvironment) newContractValueHandler() interpreter.ContractV
 		}
 
 		if addressLocation, ok := contractLocation.(common.AddressLocation); ok {
-			return loadContractValue(inter, addressLocation, e.storage)
+			contractValue := loadContractValue(inter, addressLocation, e.storage)
+			if contractValue == nil {
+				// The contract value does not exist (yet),
+				// e.g. the contract was added earlier in the same transaction,
+				// and its value is only written when the transaction is committed.
+				return nil
+			}
+			return contractValue
 		}
 
 		panic(errors.NewDefaultUserError("failed to load contract: %s", contractLocation))
